@@ -24,11 +24,12 @@ const (
 	outUnknownReport
 	outUnknownDelete
 	outUnknownRemove
+	outNoAgentNodeID // destination is the bare node ID (dtn://node/), for which no agent is registered either
 	nOutcomes
 )
 
 var outNames = []string{"delivered-to-agent", "addressed-to-node-without-agent", "forwarded", "all-sends-failed", "lifetime-expired", "hop-limit-exceeded",
-	"unknown-block-report-flag", "unknown-block-delete-flag", "unknown-block-remove-flag"}
+	"unknown-block-report-flag", "unknown-block-delete-flag", "unknown-block-remove-flag", "addressed-to-bare-node-id-without-agent"}
 
 var rptNames = []string{"other-node", "this-node", "dtn:none"}
 
@@ -97,6 +98,8 @@ func run(r *report.Run, c tcase, idx int) error {
 			m.Dst = model.Dtn("node", "app")
 		case outNoAgent:
 			m.Dst = model.Dtn("node", "nobody")
+		case outNoAgentNodeID:
+			m.Dst = model.Dtn("node", "")
 		case outExpired:
 			m.Lifetime = 500 + 3000 // ends 3 s after reception
 		case outHopLimit:
